@@ -15,7 +15,14 @@ func verifNewPipe() (io.ReadCloser, io.WriteCloser) {
 
 // verifPipeGarbage makes the stream turn to garbage at this point (the reader's decoder fails from here on).
 func verifPipeGarbage(w io.WriteCloser) {
-	go func() { _, _ = w.Write([]byte{0xff, 0xff, 0xff, 0xff}) }()
+	go func() {
+		// everything after this point of the stream is garbage, for as long as anybody reads
+		for {
+			if _, err := w.Write([]byte{0xff, 0xff, 0xff, 0xff}); err != nil {
+				return
+			}
+		}
+	}()
 }
 
 // verifPipeFailReads makes every further read fail with an I/O error.
@@ -25,6 +32,11 @@ func verifPipeFailReads(r io.ReadCloser) {
 
 // verifEncodesUnlocked: number of Encode calls made with no mutex held (engine side instrumentation).
 func verifEncodesUnlocked() int { return 0 }
+
+// verifEncodeLockBegin/Check: from Begin on, every Encode must happen with a mutex held (engine: lockset; natively the
+// race detector decides when the run is repeated under -race).
+func verifEncodeLockBegin()          {}
+func verifEncodeLockCheck(id string) {}
 
 type verifChan struct {
 	r io.ReadCloser
